@@ -1,24 +1,62 @@
+
+import os as _os, subprocess as _sp
+
+
+class _FocusEnv(dict):
+    """search_env of bin/check's directed search (it runs only after a table theorem or the correspondence
+    broke and the ordinary run showed no failing input).  Evaluated when the search starts - the tables are
+    regenerated and the runner is rebuilt by then: asks the runner (entry C14-focus) which handlers' regenerated
+    rows fail a table check and hands their names to the harness as VERIF_FOCUS; with no broken row to name
+    (a sweep, a closed-world check, a correspondence mismatch) the static part alone applies."""
+
+    def items(self):
+        out = dict(self)
+        root = _os.path.dirname(_os.path.dirname(_os.path.dirname(_os.path.abspath(_FocusEnv.items.__code__.co_filename))))
+        try:
+            p = _sp.run([_os.path.join(root, "runner", "runner"), "C14-focus", "/dev/null"], stdout=_sp.PIPE, stderr=_sp.DEVNULL,
+                        timeout=120, text=True)
+            names = [l.split()[1] for l in p.stdout.splitlines() if l.startswith("FOCUS ") and len(l.split()) == 2]
+        except Exception:
+            names = []
+        if names:
+            out["VERIF_FOCUS"] = ",".join(sorted(set(names)))
+            out.update(self.focused)
+        else:
+            out.update(self.unfocused)
+        return out.items()
+
+
+_search_env = _FocusEnv(dict(), VERIF_DIRECTED=1)
+_search_env.focused = dict()
+_search_env.unfocused = dict(VERIF_SEARCH=1)
+
 PROP = dict(
         coq="Properties/C14.v",
         workloads=[
             dict(name="control-matrix", go_test="TestC14", runner="C14",
                  env=dict(quick=dict(VERIF_ALLMASKS=0), thorough=dict(VERIF_ALLMASKS=1))),
         ],
-        rule="case = one message on its own store branch of the prepared state (one position of every kind): every method of the vault / locker / lend / liquidity / auctionsV2 msg servers "
-             "x breaker {off,on} x ESM {none, executed inside cool-off, executed after cool-off (snapshot prices recorded)} x inactive price subsets "
-             "(quick: none, all, 2 random subsets per control state; thorough: all 16 subsets of the 4 priced assets); plus V2 Liquidate, V1 LiquidateVaults / LiquidateBorrows and "
+        search_env=_search_env, search_rounds=1,   # the matrix is deterministic: one directed round (focused on the broken rows, or the full boundary matrix)
+        rule="case = one message on its own store branch of the prepared state (one position of every kind): every method of the vault / locker / lend / liquidity / auctionsV2 msg servers, "
+             "(1) with its default amount x breaker {off,on} x ESM {none, executed inside cool-off, executed after cool-off (snapshot prices recorded)} x {all prices active, none} and, without controls, "
+             "EVERY one of the 16 subsets of the 4 priced assets inactive; (2) for every amount field of the message (found by reflection) every boundary amount of the state - 1, and v-1, v, v+1 for every amount v "
+             "stored in any position record of the owner, the whole debts (principal + interest [+ closing fee]) and the wallet balances: the amounts that select early-return branches - "
+             "x {no control, breaker, ESM in cool-off, ESM after cool-off, each single price that the run reads inactive}; thorough tier / directed search: every amount x every control state x every price subset "
+             "(for the handlers of the broken rows, VERIF_FOCUS, or all). Reference of every (message, amount): the uncontrolled all-active run - its class, its resulting state, the oracle prices it READS "
+             "(SDK store tracer on the market store) and, where a run succeeds with such a feed inactive, whether the reference outcome depends on the feed's value (x1000, /1000 probes); plus V2 Liquidate, V1 LiquidateVaults / LiquidateBorrows and "
              "auction.BeginBlocker after a collateral price fall x breaker {off,on}. non-trivial = some control set and the uncontrolled run of the same message succeeds, or a sweep that started something / ran under the breaker; "
              "distinct by (handler, breaker, esm, mask)",
         modelled=["baseapp per-message atomicity (Lib/Atomic.v)", "handlers as guard lists (top-level structure; translator trusted, cross-checked by the matrix)",
                   "ESM execution is modelled by writing the ESMStatus record + price snapshots the ESM end-blocker would write",
                   "price feeds are env inputs (Twa records written directly)"],
         assumptions=["breaker scope as in DESIGN.md: locker withdraw/close and lend repay/close are outside the listed scope (recorded in Model/GuardsCheck.v)",
-                     "liquidation.MsgLiquidateBorrow and auction.MsgPlaceDutchLendBid are excluded from the price theorem (price errors assigned to _ on their paths; not reproduced dynamically)"],
+                     "liquidation.MsgLiquidateBorrow and auction.MsgPlaceDutchLendBid are excluded from the price theorem (price errors assigned to _ on their paths; not reproduced dynamically); auctionsV2.MsgPlaceMarketBid is excluded as known finding C14-F1 (reproduced)",
+                     "'needed price' is observed, not derived: a feed the all-active run of the same message reads (SDK store trace) and whose value changes that run's outcome when scaled x1000 or /1000"],
     )
 
 MANIFEST = dict(
-    level_text="Finite-matrix proof over tables REGENERATED from the Go source on every run: every handler in the breaker scope has the breaker check before any write, every vault handler that can reach MintCoins has the ESM check before any write, vault withdraw has the cool-off check before any write, all seven sweep / auction-start functions are gated by the breaker and write nothing before reading it, every price call site reachable from a handler (and every link to it) propagates the error - each lifted by a generic lemma to 'for every store the handler returns the error on the untouched store'. Cross-checked by running every handler x breaker x ESM phase x inactive-price subsets and the sweeps on the real code; exact error class compared with the model's prediction.",
+    level_text="Finite-matrix proof over tables REGENERATED from the Go source on every run: every handler in the breaker scope has the breaker check before any write, every vault handler that can reach MintCoins has the ESM check before any write, vault withdraw has the cool-off check before any write, all seven sweep / auction-start functions are gated by the breaker and write nothing before reading it, every price call site reachable from a handler (and every link to it; a raw GetTwa read that discards the found flag counts as a site that ignores the error) propagates the error - each lifted by a generic lemma to 'for every store the handler returns the error on the untouched store'. Cross-checked by running every handler x breaker x ESM phase x every inactive-price subset, and every amount field x every boundary amount of the state (the amounts that select early-return branches) x controls, and the sweeps on the real code; exact error class compared with the model's prediction; an operation must fail when a feed it reads and depends on is inactive, and an inactive feed never turns a refusal into a success.",
     design_ref="DESIGN.md section 4 C14",
-    level_note="Trusted: Coq kernel, translator (fails closed on unrecognised shapes), extraction, OCaml runner, Go harness. Price clause is _partial: two handlers excluded (price error ignored on their paths, read in the code, not reproduced). No axioms.",
+    level_note="Trusted: Coq kernel, translator (fails closed on unrecognised shapes), extraction, OCaml runner, Go harness. Price clause is _partial: three handlers excluded (price error ignored on their paths: two read in the code, not reproduced; auctionsV2.MsgPlaceMarketBid reproduced = known finding C14-F1). No axioms.",
     technique="Coq proof by computation over regenerated tables + generic guard-list lemmas + control matrix run against the real msg servers and block hooks",
 )
